@@ -42,10 +42,15 @@ def run_case(case):
                 lines.append(f".ascii '{payload}'")
                 expected += payload.encode("ascii")
             elif kind == "incbin":
-                path = os.path.join(tmp, f"blob{i}.bin")
-                data = bytes(payload["data"]) if "data" in payload else bytes((j * 7 + payload["seed"]) & 0xFF for j in range(payload["len"]))
-                with open(path, "wb") as f:
-                    f.write(data)
+                if "same_as" in payload:
+                    # the SAME file included again (a sprite sheet, a font used twice): verbatim again; its start symbol names the last copy
+                    path = os.path.join(tmp, f"blob{payload['same_as']}.bin")
+                    data = open(path, "rb").read()
+                else:
+                    path = os.path.join(tmp, f"blob{i}.bin")
+                    data = bytes(payload["data"]) if "data" in payload else bytes((j * 7 + payload["seed"]) & 0xFF for j in range(payload["len"]))
+                    with open(path, "wb") as f:
+                        f.write(data)
                 lines.append(f".incbin '{path}'")
                 base = path.replace("/", "_").replace(".", "_")
                 syms[base] = busmath.rom_address(0, 0x8000, off0 + len(expected))
@@ -105,6 +110,10 @@ def run(tier, seed):
              {"stmts": [["ascii", "A\tB\t\tC"], ["db", {"values": [9, 4, 5], "text": "(1 + 2) * 3, 4, 5"}], ["dw", {"values": [0x12, 0x1234], "text": "(0x1200 >> 8) & 0xFF, (0x12 << 8) + 0x34"}],
                         ["dl", {"values": [3, -1], "text": "(1 + 2), -1"}]], "start": 0x008000},
              # texts that look like something else to a helper shared with path directives: home-directory / environment / glob / escape syntax
+             {"stmts": [["incbin", {"len": 5, "seed": 3}], ["db", {"values": [0xAA], "text": "0xAA"}], ["incbin", {"same_as": 0}], ["incbin", {"len": 0, "seed": 0}], ["incbin", {"same_as": 0}]], "start": 0x008000},
+             # long lists (tables of a thousand and more entries are ordinary): every value, in order
+             {"stmts": [["db", {"values": [k & 0xFF for k in range(1500)], "text": ", ".join(str(k & 0xFF) for k in range(1500))}],
+                        ["dw", {"values": [0x1000 + k for k in range(1100)], "text": ",".join(hex(0x1000 + k) for k in range(1100))}]], "start": 0x008000},
              # an escaped quote (backslash + quote, both emitted) at the end, at the start, alone, and doubled: only the two DELIMITERS are dropped
              {"stmts": [["ascii", "say \\'hi\\'"], ["ascii", "\\'"], ["ascii", "\\'a"], ["ascii", "a\\'"], ["ascii", "\\'\\'"], ["db", {"values": [7], "text": "7"}]], "start": 0x008000},
              {"stmts": [["ascii", "~/SAVE 1"], ["ascii", "~"], ["ascii", "$HOME %PATH% *.bin"], ["ascii", "~root/x"]], "start": 0x008000}]
@@ -119,7 +128,7 @@ def run(tier, seed):
             failures.append({"ident": "bounded/data-directives", "script": "b_C07.py", "payload": dict(case, history=[h for h in history if any(k == "incbin" for k, _ in h["stmts"])][-6:]), "observed": f})
         history.append(case)
     return {"evaluations": n, "distinct_nontrivial": len(distinct),
-            "rule": "four fixed .ascii programs (incl. escaped quotes at either end of the text) holding every printable character and path-like texts, then seeded programs of 1-4 data directives (.db/.dw/.dl/.pointer lists with boundary, negative and over-wide values in several "
+            "rule": "a file included several times, lists of 1 500 and 1 100 values, four fixed .ascii programs (incl. escaped quotes at either end of the text) holding every printable character and path-like texts, then seeded programs of 1-4 data directives (.db/.dw/.dl/.pointer lists with boundary, negative and over-wide values in several "
                     "literal styles and separators, .ascii, .incbin of real temp files incl. lengths crossing bank ends) at window-edge start "
                     "addresses; output bytes, first offset, trailing label and incbin symbols compared with the statement's definition",
             "samples": samples, "failures": failures}
